@@ -190,6 +190,11 @@ class Campaign:
             dw = _re.search(r'first \|->\s*\[\s*w \|->\s*"([^"]*)"', v["out"], _re.S)
             res["div_first"] = _re.sub(r"\s+", " ", dw.group(1)) if dw else ""
         res["verdict"] = v["verdict"]
+        if getattr(self, "gvt_conformance", False) and v["verdict"] == "ok":
+            # reference layer for the GVT machinery (GvtTrace.tla): accumulator arithmetic, phase guards, reduction result; counted only
+            g = vlib.tlc("GvtTrace.tla", "GvtTrace.cfg", env={"TRACE": trace}, workers=1, timeout=600)
+            gm = _re.search(r'"GVTDIV",\s*(\d+),\s*(\d+),\s*(\d+)', g["out"])
+            res["gvtdiv"] = tuple(int(x) for x in gm.groups()) if gm else None
         if getattr(self, "want_stats", False) and rc == 0 and v["verdict"] == "ok" and os.path.exists(trace + ".st.bin"):
             # the shipped parser must accept the file as well
             prc, pout = vlib.sh(["python3", "-c", "import sys; sys.path.insert(0, %r); import rootsim_stats as r; s = r.RSStats(%r); "
@@ -217,6 +222,15 @@ class Campaign:
             self.stats["divergences"] = self.stats.get("divergences", 0) + res["div"]
             self.stats.setdefault("divergence_kinds", {})
             self.stats["divergence_kinds"][res.get("div_first", "?")] = self.stats["divergence_kinds"].get(res.get("div_first", "?"), 0) + 1
+        if "gvtdiv" in res:
+            gd = self.stats.setdefault("gvt_conf", {"traces": 0, "accumulator_or_local_minimum_value": 0, "phase_guard": 0, "reduction_result": 0, "not_evaluated": 0})
+            if res["gvtdiv"] is None:
+                gd["not_evaluated"] += 1
+            else:
+                gd["traces"] += 1
+                gd["accumulator_or_local_minimum_value"] += res["gvtdiv"][0]
+                gd["phase_guard"] += res["gvtdiv"][1]
+                gd["reduction_result"] += res["gvtdiv"][2]
         if os.path.exists(res["trace"]):
             txt = open(res["trace"]).read()
             self.stats["rollbacks"] += txt.count('"e":"RbBegin"')
@@ -680,7 +694,7 @@ class Campaign:
                "driver_lines_validated": self.stats.get("driver_lines", 0), "conformance_divergences": self.stats.get("divergences", 0),
                "model_checking_runs": self.stats.get("mc", []), "model_checking_reachability_probes": self.stats.get("mc_probes", []),
                "design_level_reproduction_of_known_findings": self.stats.get("mc_known", []),
-               "tlc_behaviours_replayed_in_real_code": self.stats.get("replay", []), "phase_wall_s": self.stats.get("phase_wall_s", []), "single_delay_sweep_runs": self.stats.get("sweep_runs", 0), "real_thread_runs": self.stats.get("real", {}),
+               "tlc_behaviours_replayed_in_real_code": self.stats.get("replay", []), "phase_wall_s": self.stats.get("phase_wall_s", []), "single_delay_sweep_runs": self.stats.get("sweep_runs", 0), "real_thread_runs": self.stats.get("real", {}), "gvt_protocol_conformance_divergences": self.stats.get("gvt_conf", {}),
                "conformance_divergence_kinds": self.stats.get("divergence_kinds", {}),
                "micro_model_runs_on_real_code": self.stats.get("micro_runs", 0), "micro_model_distinct_interleavings": self.stats.get("micro_distinct", 0),
                "exhaustive": False}
